@@ -115,6 +115,14 @@ def run(ctx):
             evo_fail.append("%s: shared fields read differently: A: %s | B: %s" % (k, ra, rb))
         if k.startswith("B") and "err=0" not in d.get("printA", ""):
             evo_fail.append("%s: A's JSON printer failed on a B buffer: %s" % (k, d.get("printA")))
+        elif k.startswith("B"):
+            # "prints it without error": what the old printer writes for members it does not know must still be JSON
+            m = re.search(r"text=([0-9a-f]*)", d.get("printA", ""))
+            try:
+                import json as _json
+                _json.loads(bytes.fromhex(m.group(1)).decode("utf-8"))
+            except Exception as ex:
+                evo_fail.append("%s: A's JSON printer wrote text that is not JSON for a B buffer: %s (%s)" % (k, bytes.fromhex(m.group(1)).decode("latin1")[:300] if m else "?", ex))
         if k.startswith("A") and "extra=5 present=0 tags=0 more=0 any2=0 ex=0 colors=0" not in d.get("newB", ""):
             evo_fail.append("%s: new fields not at their defaults when reading an A buffer with B: %s" % (k, d.get("newB")))
     if spec_fail or evo_fail:
